@@ -95,6 +95,7 @@ type Runner struct {
 	Extra    map[string]interface{}
 	Samples  []interface{}
 	Workers  int
+	TVAgree  int
 	ReplayOverride func(hr *HarnessResult) string
 	AfterInject    func()
 	Filter   *regexp.Regexp
@@ -374,6 +375,12 @@ func (r *Runner) symx(pkgs []*FixPkg) {
 	r.Results = append(r.Results, res...)
 	r.Extra["bounds"] = b
 	r.classify(res)
+	// translator validation on a sample of instantiations (2 per package)
+	if r.Filter == nil {
+		agree, disagree := r.runTV(ld, pkgs, opts, 2)
+		r.Extra["translator_validation"] = map[string]int{"agreements": agree, "disagreements": disagree}
+		r.TVAgree += agree
+	}
 }
 
 // classify turns harness results into VIOLATION / KNOWN-FINDING / INCONCLUSIVE lines (with native replay).
@@ -541,7 +548,7 @@ func (r *Runner) writeEvidence() {
 		"outside_claim":         spec.Outside,
 		"states":                max(nObl, 1),
 		"transitions":           max(instrs, 1),
-		"traces_validated_against_impl": len(r.Replays),
+		"traces_validated_against_impl": len(r.Replays) + r.TVAgree,
 		"explanation":           "bounded symbolic execution of the real SSA of freshly generated code; every verdict is an SMT solver answer over all values within the bounds",
 	}
 	for k, v := range r.Extra {
